@@ -90,7 +90,7 @@ def load_known():
         return json.load(f)
 
 
-def finish(ctx: Ctx, t0: float, level: str, seed: int, extra_cov=None) -> int:
+def finish(ctx: Ctx, t0: float, level: str, seed: int, extra_cov=None, write=True) -> int:
     """Evaluate floors, match findings with the known list, write evidence, exit code."""
     # floors: a rule that matched fewer instances than confirmed by hand is broken
     for rule, n_min in ctx.floors.items():
@@ -206,9 +206,10 @@ def finish(ctx: Ctx, t0: float, level: str, seed: int, extra_cov=None) -> int:
         "wall_s": round(time.time() - t0, 3),
         "violations": len(new),
     }
-    os.makedirs(os.path.join(VERIF, "evidence"), exist_ok=True)
-    with open(os.path.join(VERIF, "evidence", f"{ctx.prop}.json"), "w") as f:
-        json.dump(ev, f, indent=1, default=str)
+    if write:
+        os.makedirs(os.path.join(VERIF, "evidence"), exist_ok=True)
+        with open(os.path.join(VERIF, "evidence", f"{ctx.prop}.json"), "w") as f:
+            json.dump(ev, f, indent=1, default=str)
     print(
         f"{ctx.prop} tier={ctx.tier}: {n_ok}/{n_ob} obligations discharged, "
         f"{len(listed)} known finding(s), {len(new)} new violation(s), "
